@@ -134,16 +134,18 @@ example : (atomicWriteOps 7 ['t'] [[1], [2, 3]] : List (Op Nat)) =
 
 /-! ## One writer: permission bits -/
 
-/-- **C08_mode_partial** — whatever the faults and the policy: if the call returned normally
+/-- **C08_mode_partial** — (`hk`: the previous mode has no set-user-ID bit and no set-group-ID bit
+together with group-execute — the bits `chown(2)` clears, see H1 below.)  Whatever the faults and the policy: if the call returned normally
 (the replacement happened) and its `chmod` of the temp file succeeded (which implies that the
 `stat` of the target had succeeded), the target carries the previous file's permission bits. -/
 theorem C08_mode_partial (env : Env) (strict : Bool) (fault : Faults) (fs : FS α) (pid : Nat) (target : Path)
-    (chunks : List (List α)) (fo : File α) (hfo : fs target = some fo) (k : Nat) :
+    (chunks : List (List α)) (fo : File α) (hfo : fs target = some fo)
+    (hk : killSugid fo.mode = fo.mode) (k : Nat) :
     let r := runN env strict fault k fs (Proc.init (atomicWriteOps pid target chunks))
     r.2.done → chmodOk (tmpName target pid) r.2 → ∃ f, r.1 target = some f ∧ f.mode = fo.mode := by
   intro r hd hc
   have hm := (MInv.init (tmpName target pid) target chunks fs fo False hfo).runN env strict fault
-    (fun h => h.elim) (tmpName_ne_target target pid) k (CInv_init _ _ _ _)
+    (fun h => h.elim) hk (tmpName_ne_target target pid) k (CInv_init _ _ _ _)
   exact hm.fin hc hd
 
 /-- a directory with a private previous file `t` = ([9], 0600, gid 5) -/
@@ -156,17 +158,20 @@ example :
         (r.1 ['t']).map File.mode = some 384)
     (run ⟨420, 0, 255⟩ false noFaults exFs (Proc.init (opsAt ['x'] ['t'] [[1], [2]]))) := by decide
 
-/-- **C08_mode_strict** — full-strength `C08_mode` for the repaired exception policy
+/-- **C08_mode_strict** — (partial since H1: `hk` excludes the previous modes whose bits the `chown`
+that FOLLOWS the `chmod` clears again; the order of fixes/C08-H1.diff does not need it, see
+`C08_mode_sugid_witness`.)  `C08_mode` for the repaired exception policy
 (`strict = true`, fixes/C08-D6.diff): for EVERY fault plan that does not make `stat` lie about
 the file's existence (no injected ENOENT), if a previous file existed and the call returns
 normally, the target carries the previous file's permission bits. -/
 theorem C08_mode_strict (env : Env) (fault : Faults) (hne : ∀ i, fault i ≠ some ENOENT) (fs : FS α) (pid : Nat)
-    (target : Path) (chunks : List (List α)) (fo : File α) (hfo : fs target = some fo) (k : Nat) :
+    (target : Path) (chunks : List (List α)) (fo : File α) (hfo : fs target = some fo)
+    (hk : killSugid fo.mode = fo.mode) (k : Nat) :
     let r := runN env true fault k fs (Proc.init (atomicWriteOps pid target chunks))
     r.2.done → ∃ f, r.1 target = some f ∧ f.mode = fo.mode := by
   intro r hd
   have hm := (MInv.init (tmpName target pid) target chunks fs fo True hfo).runN env true fault
-    (fun _ => ⟨rfl, hne⟩) (tmpName_ne_target target pid) k (CInv_init _ _ _ _)
+    (fun _ => ⟨rfl, hne⟩) hk (tmpName_ne_target target pid) k (CInv_init _ _ _ _)
   exact hm.fin (hm.strictOk trivial (Or.inr (Or.inr hd))) hd
 
 /-- `C08_mode_strict` is not vacuous: under the repaired policy an EIO at `chown` (call 5) is
@@ -214,6 +219,56 @@ theorem C08_mode_false_witness :
   have := (Option.some.inj hf)
   rw [← this] at hmode
   simp at hmode
+
+/-! ### Witness: H1 (set-user-ID / set-group-ID bits).  `atomic_write_file` calls `chmod(tmp, st_mode)` and THEN
+`chown(tmp, -1, st_gid)`; Linux `chown` clears S_ISUID and (for a group-executable file) S_ISGID, so the bits
+just copied are lost.  With `chown` first and `chmod` last (fixes/C08-H1.diff, `opsAtCF`) they are kept. -/
+
+example : killSugid 0o2755 = 0o755 ∧ killSugid 0o4755 = 0o755 ∧ killSugid 0o6755 = 0o755 ∧ killSugid 0o2644 = 0o2644 ∧
+    killSugid 0o6644 = 0o2644 ∧ killSugid 0o1755 = 0o1755 ∧ killSugid 0o7777 = 0o1777 ∧ killSugid 0o644 = 0o644 := by decide
+
+/-- **C08_mode_sugid_witness** (H1) — previous file `t` = ("old", 02755), creation mode 0644, one chunk, NO fault,
+repaired exception policy: in the order as found the call returns normally with the complete new contents and
+mode 0755 (so `C08_mode_strict` without `hk` is false); in the repaired order (`opsAtCF`) the mode is 02755,
+also when `chown` fails (EPERM at call 4: not a member of the group), and a failing `chmod` (call 5) propagates
+with the target untouched. -/
+theorem C08_mode_sugid_witness :
+    let fs : FS Nat := fun p => if p = ['t'] then some ⟨[0], 0o2755, 7⟩ else none
+    let env : Env := ⟨0o644, 0, 255⟩
+    let chownFails : Faults := fun i => if i = 4 then some 1 else none
+    let chmodFails : Faults := fun i => if i = 5 then some 5 else none
+    let r := run env true noFaults fs (Proc.init (opsAt ['x'] ['t'] [[1]]))
+    let c := run env true noFaults fs (Proc.init (opsAtCF ['x'] ['t'] [[1]]))
+    let c1 := run env true chownFails fs (Proc.init (opsAtCF ['x'] ['t'] [[1]]))
+    let c2 := run env true chmodFails fs (Proc.init (opsAtCF ['x'] ['t'] [[1]]))
+    (r.2.todo = [] ∧ r.2.err = none ∧ r.1 ['t'] = some ⟨[1], 0o755, 7⟩) ∧
+    (c.2.todo = [] ∧ c.2.err = none ∧ c.1 ['t'] = some ⟨[1], 0o2755, 7⟩) ∧
+    (c1.2.todo = [] ∧ c1.2.err = none ∧ c1.1 ['t'] = some ⟨[1], 0o2755, 0⟩) ∧
+    (c2.2.todo = [] ∧ c2.2.err = some 5 ∧ c2.1 ['t'] = some ⟨[0], 0o2755, 7⟩) ∧
+    ¬ (∀ (fo : File Nat), fs ['t'] = some fo →
+        r.2.done → ∃ f, r.1 ['t'] = some f ∧ f.mode = fo.mode) := by
+  refine ⟨by decide, by decide, by decide, by decide, ?_⟩
+  intro h
+  have hd : (run ⟨0o644, 0, 255⟩ true noFaults
+      (fun p => if p = ['t'] then some (⟨[0], 0o2755, 7⟩ : File Nat) else none)
+      (Proc.init (opsAt ['x'] ['t'] [[1]]))).2.done := by
+    unfold Proc.done; decide
+  obtain ⟨f, hf, hmode⟩ := h ⟨[0], 0o2755, 7⟩ (by decide) hd
+  have hex : (run ⟨0o644, 0, 255⟩ true noFaults
+      (fun p => if p = ['t'] then some (⟨[0], 0o2755, 7⟩ : File Nat) else none)
+      (Proc.init (opsAt ['x'] ['t'] [[1]]))).1 ['t'] = some ⟨[1], 0o755, 7⟩ := by decide
+  rw [hex] at hf
+  have := (Option.some.inj hf)
+  rw [← this] at hmode
+  simp at hmode
+
+/-- the repaired order issues the same calls up to `stat`, then `chown`, `chmod`, `rename`; ENOENT at `stat` skips both -/
+example : (atomicWriteOpsCF 7 ['t'] [[1]] : List (Op Nat)) =
+    [.openTrunc (tmpName ['t'] 7), .write (tmpName ['t'] 7) [1], .close (tmpName ['t'] 7), .stat ['t'],
+     .chown (tmpName ['t'] 7), .chmod (tmpName ['t'] 7), .rename (tmpName ['t'] 7) ['t']] := rfl
+
+example : (run ⟨0o644, 0, 255⟩ true noFaults (fun _ => none) (Proc.init (opsAtCF ['x'] ['t'] [[1]] : List (Op Nat)))).2.log.map Prod.fst =
+    [.openTrunc ['x'], .write ['x'] [1], .close ['x'], .stat ['t'], .rename ['x'] ['t']] := by decide
 
 /-! ## Two writers -/
 
